@@ -377,6 +377,33 @@ def build(run):
         return bounded_ok(n, f"all pairs of {len(fs)} forms", sample="Form.equals symmetric, consistent with hash/repr/signature")
     run.add("laws/forms", forms_laws, kind="bounded")
 
+    def forms_equal_pairs():
+        """Forms built from different but EQUAL terminals (an instance of a user subclass of Coefficient / Constant equals the plain object with
+        the same count and space): equal forms are interchangeable, in particular they have the same signature."""
+        from ufv import sigforms as S_
+        t = terms()
+        Sp = t["S"]
+        v = TestFunction(Sp)
+        fP = Coefficient(Sp, count=7600)
+        gU, gP = S_.UserCoefficient(Sp, count=7601), Coefficient(Sp, count=7601)
+        kU, kP = S_.UserConstant(t["msh"], count=7602), Constant(t["msh"], count=7602)
+        kQ = Constant(t["msh"], count=7603)
+        pairs = [("coefficient of a user subclass next to a plain one", lambda: fP * gU * v * dx, lambda: fP * gP * v * dx),
+                 ("constants", lambda: kQ * kU * fP * v * dx, lambda: kQ * kP * fP * v * dx),
+                 ("both", lambda: (kU * gU + kQ * fP) * v * dx + gU * fP * v * ds, lambda: (kP * gP + kQ * fP) * v * dx + gP * fP * v * ds)]
+        n = 0
+        for name, mkA, mkB in pairs:
+            A, B = mkA(), mkB()
+            sA, sB = A.signature(), B.signature()      # before any ==: a successful == shares operand tuples
+            hA, hB, rA, rB = hash(A), hash(B), repr(A), repr(B)
+            n += 1
+            if A.equals(B) and (sA != sB or hA != hB or rA != rB):
+                return violated(f"{name}: the two forms are equal (==, hash, repr: {hA == hB}, {rA == rB}) but their signatures differ "
+                                f"({sA[:16]}... vs {sB[:16]}...): equal forms are not interchangeable",
+                                replay={"pair": name, "sigA": sA, "sigB": sB, "reprA": rA[:500]}, reproduced=True, backend="exec")
+        return bounded_ok(n, f"{len(pairs)} pairs of equal forms built from different objects", sample="equal forms have equal signature, hash and repr")
+    run.add("laws/equal-forms-from-different-objects", forms_equal_pairs, kind="bounded")
+
     # ------------------------------------------------------------------ (iv) round trips
     def roundtrip():
         t = terms()
